@@ -315,6 +315,8 @@ def obligations(tier):
         for flag in (True, False):
             for kind in ("re", "re_fast"):
                 for weighted in (False, True):
+                    if tier == "quick" and (tomo, kind) == ("povmt", "re") and not (flag and weighted):
+                        continue        # the generic relative entropy on POVMT needs minutes of lemma proofs: one configuration in quick
                     out += specs("C12.re", [{"tomo": tomo, "sysname": s, "m": m, "flag": flag, "kind": kind, "weighted": weighted}], ob_re, 4)
     out += specs("C12.simple_quadratic", [{"n": n} for n in (2, 4)], ob_simple_quadratic, 1)
     return out
